@@ -8,6 +8,8 @@ package dsim
 
 import (
 	"fmt"
+	"os"
+	"path/filepath"
 	"strconv"
 	"strings"
 	"testing"
@@ -77,7 +79,16 @@ func genC19(r *Rng, tier string, idx int) *Plan {
 	if tier == "thorough" {
 		n = r.Range(5, 80)
 	}
+	if p.Profile == "history" && p.SKnobs["policy"] == "noeviction" && idx%2 == 0 {
+		// the history is logged to the append-only file and the server is restarted from it: the figure is a
+		// function of the dataset, so it is the same before and after
+		p.Knobs["aof"] = 1
+	}
 	for i := 0; i < n; i++ {
+		if p.Knobs["aof"] == 1 && r.Chance(0.08) {
+			p.Ops = append(p.Ops, Op{Kind: "restart"})
+			continue
+		}
 		if r.Chance(0.08) {
 			p.Ops = append(p.Ops, Op{Kind: "advance", N: int64(Pick(r, []int{100, 1000, 5000, 60000, 200000}))})
 			continue
@@ -103,6 +114,11 @@ func runC19(t *testing.T, p *Plan) *Outcome {
 			o.Sig, o.Detail = "C19/"+sig, detail
 		}
 	}
+	root := filepath.Join(scratchDir(), fmt.Sprintf("r%d", runCounter.Add(1)))
+	if p.K("aof") == 1 {
+		_ = os.MkdirAll(root, 0o755)
+		defer os.RemoveAll(root)
+	}
 	br := RunBubble(t, func() {
 		s := NewSim()
 		s.logOn = p.Profile == "conc"
@@ -123,17 +139,27 @@ func runC19(t *testing.T, p *Plan) *Outcome {
 			s.KillInstance(99)
 		}
 		cfg.EvictionInterval = 500 * time.Millisecond
+		if p.K("aof") == 1 {
+			cfg.DataDir = filepath.Join(root, "g1")
+			cfg.RestoreAOF = true
+			cfg.AOFSyncStrategy = "always"
+		}
 		inst, err := s.Boot(1, cfg)
 		if err != nil {
 			fail("boot-failed", fmt.Sprint(err))
 			return
 		}
-		clients := []*Client{s.NewTCPClient(inst, "d0")}
-		if p.K("dbs") > 1 {
-			c1 := s.NewTCPClient(inst, "d1")
-			c1.DoSync("SELECT", "1")
-			clients = append(clients, c1)
+		var clients []*Client
+		connect := func(g int) {
+			clients = []*Client{s.NewTCPClient(inst, fmt.Sprintf("g%dd0", g))}
+			if p.K("dbs") > 1 {
+				c1 := s.NewTCPClient(inst, fmt.Sprintf("g%dd1", g))
+				c1.DoSync("SELECT", "1")
+				clients = append(clients, c1)
+			}
 		}
+		connect(1)
+		gen := 1
 		check := func(i int, what string) {
 			st := inst.DB.VerifDump()
 			var sum int64
@@ -231,6 +257,38 @@ func runC19(t *testing.T, p *Plan) *Outcome {
 					continue
 				}
 				op.Kind = ""
+			}
+			if op.Kind == "restart" {
+				if p.K("aof") != 1 {
+					continue
+				}
+				names = append(names, "restart")
+				st := inst.DB.VerifDump()
+				now := nowMs()
+				live := StripExpired(st, now, false)
+				pure := len(live) == len(DataMap(st, false)) // no expired-but-present entry (a restart drops those)
+				used := st.MemUsed
+				s.KillInstance(gen)
+				img := filepath.Join(root, fmt.Sprintf("g%d", gen+1))
+				copyTree(cfg.DataDir, img)
+				cfg.DataDir = img
+				gen++
+				var err error
+				inst, err = s.Boot(gen, cfg)
+				if err != nil || inst.Panic != "" {
+					fail("restart-failed", fmt.Sprintf("%v %s", err, inst.Panic))
+					break
+				}
+				connect(gen)
+				st2 := inst.DB.VerifDump()
+				live2 := StripExpired(st2, nowMs(), false)
+				pure = pure && len(live2) == len(DataMap(st2, false)) // replay may re-create an entry whose deadline has passed
+				if pure && mapsEqual(live2, live) && st2.MemUsed != used {
+					fail("restart-changed-figure", fmt.Sprintf("after op %d: the server restarted from its append-only file holds the same dataset (%d keys) but reports usage %d; before the restart it reported %d", i, len(live), st2.MemUsed, used))
+					break
+				}
+				check(i, "restart")
+				continue
 			}
 			if op.Kind == "advance" {
 				names = append(names, "adv")
